@@ -12,6 +12,8 @@
 #include <pika/threading_base/detail/global_activity_count.hpp>
 
 #include <sched.h>
+#include <sys/syscall.h>
+#include <unistd.h>
 #include <time.h>
 
 #include <atomic>
@@ -130,6 +132,11 @@ namespace vf::rt {
         std::function<std::string()> diagnose;    // extra text for deadlock verdicts
         std::function<bool()> awaited_signal_missing;    // true while the signal the main thread waits for has not been produced
         std::function<void(int, void const*, std::uint64_t, std::uint64_t)> user_hook;
+        // flight recorder: the last hook events (all sites), dumped into failure messages on request
+        struct Rec { std::atomic<std::uint64_t> seq{0}; int site = 0; void const* obj = nullptr; std::uint64_t a = 0, b = 0; long tid = 0; };
+        static constexpr std::size_t nrec = 1u << 13;
+        Rec* rec = nullptr;
+        std::atomic<std::uint64_t> rec_next{0};
     };
     inline Globals& G()
     {
@@ -198,10 +205,44 @@ namespace vf::rt {
         }
     }
 
+    inline void enable_recorder()
+    {
+        if (!G().rec) G().rec = new Globals::Rec[Globals::nrec];
+    }
+    // the recorded events that concern `obj` (oldest first), at most `max_events`
+    inline std::string dump_trace(void const* obj, std::size_t max_events = 40)
+    {
+        Globals& g = G();
+        if (!g.rec) return "";
+        std::uint64_t end = g.rec_next.load();
+        std::uint64_t begin = end > Globals::nrec ? end - Globals::nrec : 0;
+        std::vector<std::string> ev;
+        for (std::uint64_t i = begin; i < end; ++i)
+        {
+            Globals::Rec& r = g.rec[i & (Globals::nrec - 1)];
+            if (r.seq.load(std::memory_order_acquire) != i + 1 || r.obj != obj) continue;
+            ev.push_back("#" + std::to_string(i) + " site" + std::to_string(r.site) + "(" + std::to_string(r.a) + "," + std::to_string(r.b) + ")@tid" + std::to_string(r.tid));
+        }
+        std::string out;
+        std::size_t from = ev.size() > max_events ? ev.size() - max_events : 0;
+        for (std::size_t i = from; i < ev.size(); ++i) out += (out.empty() ? "" : " ") + ev[i];
+        return out;
+    }
+
     inline void hook_cb(int site, void const* obj, std::uint64_t a, std::uint64_t b)
     {
         Globals& g = G();
         if (site > 0 && site < vf::site_max) g.site_hits[site].fetch_add(1, std::memory_order_relaxed);
+        if (g.rec)
+        {
+            std::uint64_t i = g.rec_next.fetch_add(1, std::memory_order_relaxed);
+            Globals::Rec& r = g.rec[i & (Globals::nrec - 1)];
+            r.seq.store(0, std::memory_order_relaxed);
+            r.site = site; r.obj = obj; r.a = a; r.b = b;
+            static thread_local long tid = static_cast<long>(syscall(SYS_gettid));
+            r.tid = tid;
+            r.seq.store(i + 1, std::memory_order_release);
+        }
         if (g.monitor_on.load(std::memory_order_relaxed))
         {
             if (site == vf::S_SL_BEFORE_RUN)
@@ -319,6 +360,59 @@ namespace vf::rt {
     }
 
     // ---------------------------------------------------------------------------------------------
+    // Bounded calls: API calls of which the property says "the call returns" and that wait by busy-yielding
+    // (so a hang is invisible to the quiescence detector).  The bound is generous (default 12 s for calls that
+    // normally take micro- to milliseconds; the per-case watchdog is 60-90 s); it is checked by the detector
+    // thread.  Violation = the call is still in progress after the bound.
+    struct BoundedCalls
+    {
+        struct Entry { std::string what; double since = 0, limit = 0; bool active = false; };
+        std::mutex m;
+        std::vector<Entry> e;
+    };
+    inline BoundedCalls& bounded_calls()
+    {
+        static BoundedCalls* b = new BoundedCalls();
+        return *b;
+    }
+    struct BoundedCall
+    {
+        std::size_t idx;
+        explicit BoundedCall(std::string what, double limit_s = 12.0)
+        {
+            auto& b = bounded_calls();
+            std::lock_guard<std::mutex> l(b.m);
+            for (idx = 0; idx < b.e.size(); ++idx) if (!b.e[idx].active) break;
+            if (idx == b.e.size()) b.e.emplace_back();
+            b.e[idx].what = std::move(what);
+            b.e[idx].since = now_s();
+            b.e[idx].limit = limit_s;
+            b.e[idx].active = true;
+        }
+        ~BoundedCall()
+        {
+            auto& b = bounded_calls();
+            std::lock_guard<std::mutex> l(b.m);
+            b.e[idx].active = false;
+        }
+    };
+    inline void check_bounded_calls()
+    {
+        auto& b = bounded_calls();
+        std::string what;
+        double dur = 0;
+        {
+            std::lock_guard<std::mutex> l(b.m);
+            double t = now_s();
+            for (auto const& x : b.e)
+                if (x.active && t - x.since > x.limit) { what = x.what; dur = t - x.since; break; }
+        }
+        if (!what.empty())
+            fail_now("call_never_returns", what + " has not returned for " + std::to_string(static_cast<int>(dur)) + " s (activations so far: " +
+                    std::to_string(G().phase_counter.load()) + "); " + (G().diagnose ? G().diagnose() : std::string()));
+    }
+
+    // ---------------------------------------------------------------------------------------------
     // Quiescence (deadlock) detector, DESIGN §3.3: state-based.
     struct Quiescence
     {
@@ -386,6 +480,7 @@ namespace vf::rt {
                     struct timespec ts { 0, period_ms * 1000000l };
                     nanosleep(&ts, nullptr);
                     if (stop.load()) break;
+                    check_bounded_calls();
                     std::unique_lock<std::mutex> snap_lock(snap_mtx);
                     if (dump_after > 0 && now_s() - t_start > dump_after && !stop_mode.load())
                     {
